@@ -80,7 +80,15 @@ def make_summary(nn, agg, name, post_listening=True):
     def handler(model, it, st, fr, node, target, args, kwargs):
         selfv = args[0]
         ok, det = listening(nn, st)
-        it.event(st, fr, "summary", node, (name, ok, det))
+        snap = {"args": list(args[1:])}
+        if isinstance(selfv, Ref):
+            fb = st.heap[selfv.ident].fields.get("frame_buf")
+            if isinstance(fb, Ref):
+                snap["message"] = st.heap[fb.ident].fields.get("message")
+                h = st.heap[fb.ident].fields.get("header")
+                if isinstance(h, Ref):
+                    snap["header"] = dict(st.heap[h.ident].fields)
+        it.event(st, fr, "summary", node, (name, ok, det, snap))
         if isinstance(selfv, Ref):
             havoc_node(it, st, selfv)
         for r, v in net.LISTENING.items():
